@@ -139,7 +139,7 @@ PROPS = {
         "kx": [],
         "technique": "Verus gate idiom on the extracted Service::handle_announcement: sink gossip::Store::announced requires acceptable(announcement, clock); Announcement::verify proved to be the ed25519 check over the serialized message",
         "explanation": "Service::handle_announcement reaches the gossip store only with an announcement whose signature verifies for the announcing node over its wire encoding, whose timestamp is at most one hour ahead of the clock and not zero, whose announcer is known for inventory/refs announcements and is not the local node; a result of Some(id) implies those facts.",
-        "not_decided": "Strictly-newer-than-stored is SQL (WHERE timestamp < ?) inside the store; the announcer exclusion of Service::relay is proved in unit service_relay (Outbox::relay is only given peers other than the announcer); the exclusion of the peers that relayed the announcement to us (first filter, Vec::contains inside Option::map) is a stand-in with arbitrary result -- not decided; the per-type processing after the store is an opaque stand-in (arbitrary effect, result Ok(relay)|Ok(None) assumed). serialize() and ed25519 are uninterpreted.",
+        "not_decided": "Strictly-newer-than-stored is SQL (WHERE timestamp < ?) inside the store; both exclusions of Service::relay are proved in unit service_relay (Outbox::relay is only given peers other than the announcer; no peer recorded in relayed_by for this announcement is among them); that relayed_by records every peer that delivered the announcement (handle_announcement pushes into a HashMap entry) is a stand-in; the per-type processing after the store is an opaque stand-in (arbitrary effect, result Ok(relay)|Ok(None) assumed). serialize() and ed25519 are uninterpreted.",
     },
     "C11": {
         "vx": ["service_gossip", "service_relay", "service_inventory", "identity"],
